@@ -37,6 +37,8 @@ func Dev(name string, c *core.Ctx) {
 		DumpBitUses(c)
 	case "dbgenc":
 		DebugEncodeString(c)
+	case "sccs":
+		DumpSCCs(c)
 	case "pkgstate":
 		DumpPkgState(c)
 	default:
